@@ -58,7 +58,7 @@ def load():
     L.q = q
     L.DeclarativeCircuit = q.DeclarativeCircuit
     L.RelationLink = ico.RelationLink
-    L.MultiRelationLink = ico.MultiRelationLink
+    L.MultiRelationLink = getattr(ico, "MultiRelationLink", None) or type("_NoMultiRelationLink", (), {})
     L.RelationType = ico.RelationType
     L.QubitChannel = ico.QubitChannel
     L.ICircuitOperation = ico.ICircuitOperation
@@ -102,3 +102,67 @@ def load():
     L.scc = scc
     L.scomp = scomp
     return L
+
+
+def calibrate(L):
+    """Read from the implementation what a freshly constructed operation of every kind reports: its channel pattern
+    and where its default duration comes from. The properties are about what happens to operations afterwards (placement,
+    listing, copies, unrolling, exports keep them); which channel or default duration a kind has is not fixed by any of
+    them, so the reference model takes these tables from the library instead of hard-coding them."""
+    tables = {}
+    probe_a = {L.GlobalRegistryKey.READOUT: 11.0, L.GlobalRegistryKey.MICROWAVE: 13.0, L.GlobalRegistryKey.FLUX: 17.0, L.GlobalRegistryKey.RESET: 19.0}
+    probe_b = {k: 2.0 * v for k, v in probe_a.items()}
+    names = {"READOUT": "readout", "MICROWAVE": "microwave", "FLUX": "flux", "RESET": "reset"}
+    ch = {"READOUT": "RO", "MICROWAVE": "MW", "FLUX": "FL", "ALL": "ALL"}
+    holder = L.DeclarativeCircuit()
+    for kind, (arity, params) in KINDS.items():
+        cls = L.kind_class[kind]
+        try:
+            def make(chan=None):
+                kw = {}
+                if "multi" in params:
+                    kw["qubit_indices"] = [10, 11]
+                elif arity == 1:
+                    kw["qubit_index"] = 10
+                else:
+                    kw["control_qubit_index"], kw["target_qubit_index"] = 10, 11
+                if params == "a":
+                    kw["acquisition_strategy"] = holder.get_acquisition_strategy()
+                if chan is not None:
+                    kw["qubit_channel"] = L.QubitChannel[chan]
+                return cls(**kw)
+
+            takes_chan = params == "dc"
+            o1 = make("FLUX" if takes_chan else None)
+            pat = []
+            for c in o1.channel_identifiers:
+                slot = {10: 0, 11: 1}.get(c.id)
+                name = ch[c.channel.name]
+                if takes_chan and name == "FL":
+                    name = "PARAM"
+                pat.append([slot, name])
+            if takes_chan:
+                o2 = make("READOUT")
+                pat2 = [[{10: 0, 11: 1}.get(c.id), "PARAM" if ch[c.channel.name] == "RO" else ch[c.channel.name]] for c in o2.channel_identifiers]
+                if pat2 != pat:
+                    raise ValueError("channel pattern does not follow the qubit_channel parameter")
+                o3 = make(None)
+                default_chan = ch[o3.channel_identifiers[0].channel.name]
+            else:
+                default_chan = None
+            o = make(None)
+            with L.temporary_override(probe_a):
+                da = o.duration
+            with L.temporary_override(probe_b):
+                db = o.duration
+            if da == db:
+                dur = ["fixed", float(da)]
+            else:
+                key = [names[k.name] for k, v in probe_a.items() if v == da and probe_b[k] == db]
+                if len(key) != 1:
+                    raise ValueError("default duration is not one global key")
+                dur = ["global", key[0]]
+            tables[kind] = {"pattern": pat, "multi": "multi" in params, "default_chan": default_chan, "dur": dur}
+        except Exception as e:   # keep the documented table for this kind
+            tables[kind] = {"error": f"{type(e).__name__}: {e}"}
+    return tables
